@@ -21,7 +21,6 @@ func VerifC17Vigil(h *verifrt.H) {
 	}
 	returned := false
 	h.Go("waiter", func() {
-		h.Known("C17-vigil-lost-wakeup", "deadlock", true)
 		v.WaitForActiveVigilsClosed()
 		h.Assert(!v.HasActiveVigils(), "returns-only-at-zero")
 		returned = true
